@@ -264,6 +264,35 @@ example : (match tableLoad ([120, 114, 101, 102] ++ (LineEol.cr.bytes ++ (render
     | .error _ => false) = true := by decide
 
 
+
+/-- From the written lines to `Rep`: a loaded classic table represents revision `r` as soon as
+the written subsections do (last in-use line per number leads to `r`'s value) — the hypothesis of
+`C02_newest_wins` follows from what the writer wrote, not from what the loader returned. -/
+theorem C02_table_represents (whole : History) (objs : List (Nat × Nat × Nat × Val)) (subs : List Sub) (r : Revision)
+    (h : ∀ n, match r.lookup n with
+              | none => specSubs subs (n : Int) none = none
+              | some v => ∃ e, specSubs subs (n : Int) none = some e ∧ entryOK whole objs n v e = true) :
+    SecRep whole objs (.table (insSubs subs [])) r := by
+  intro n
+  have := h n
+  rw [← C02_table_lookup subs n] at this
+  exact this
+
+/-- The same for a cross-reference stream section written as `W`, `/Index` ranges and rows. -/
+theorem C02_stream_represents (whole : History) (objs : List (Nat × Nat × Nat × Val)) (ranges : List (Nat × Nat))
+    (w1 w2 w3 : Nat) (rows : List Row) (r : Revision)
+    (hf : ∀ row ∈ rows, FitsRow w1 w2 w3 row) (hlen : sumCounts ranges ≤ rows.length)
+    (h : ∀ n, match r.lookup n with
+              | none => (rowSpec ranges rows n).bind specRowEntry = none
+              | some v => ∃ e, (rowSpec ranges rows n).bind specRowEntry = some e ∧ entryOK whole objs n v e = true) :
+    SecRep whole objs (.stream ⟨ranges, w1, w2, w3, encodeRows w1 w2 w3 rows⟩) r := by
+  intro n
+  have := h n
+  have hrow : rowEntry = specRowEntry := funext C02_row_types
+  simp only [Section.getPos]
+  rw [C02_xrefstm_entry ranges w1 w2 w3 rows hf hlen n, hrow]
+  exact this
+
 /-! ## Termination of the line loops, and the body scan -/
 
 /-- `PDFXRef.load` terminates within one iteration per byte: the fuel of the model is never
